@@ -251,6 +251,75 @@ CHECKS.update({
     design='6/C02'),
 })
 
+# ---- round 2 wording (after the fix round) ----
+CHECKS['C08']['text'] = (
+    'Theorems (any real inner-product space = any weighting/discretisation/product structure): conj_sound / conj_sound_eq - '
+    'for every expression tree built from L1, Linf-ball indicator, Huber, L2^2, Constant, IndicatorZero, QuadraticForm (linear '
+    'and SPD operator) by LeftScalarMult, RightScalarMult, RightVectorMult, ScalarSum, Translation, QuadraticPerturb(a=0), '
+    'BregmanDistance, the convex_conj computed by the coded rules (incl. the is_linear dispatch of __mul__) satisfies '
+    'Fenchel-Young, with equality at the coded gradient; each rule also stand-alone with the subgradient relation; Moreau '
+    'identity from the resolvent of the inverse relation + uniqueness; concrete pairs L2^2, L2, Constant/IndicatorZero, '
+    'QuadraticForm (1/4), L1/Linf and Huber on weighted lists (all n); quadform_conj_without_quarter_fails (sensitivity). '
+    'InfimalConvolution and SeparableSum: rule-level theorems only; KL, Lp, group norms, nuclear norm, f**=f: '
+    'correspondence/oracle only.')
+CHECKS['C08']['note'] += ' The model follows /repo after fix commits bdb9b62, b8f4257, 8145920.'
+CHECKS['C09']['text'] += (' Round 2: entry-wise derivatives of L1 and Huber away from kinks and their lifting to weighted '
+                          'spaces are proved (l1_entry_deriv, huber_entry_deriv, separable_grad); L2 norm and KL leaf '
+                          'derivatives remain finite-difference-tested hypotheses.')
+CHECKS['C19']['text'] = (
+    '34 theorems for all parameters under c^2+s^2=1 and unit axes: rot_orthonormal_2d/_euler/_axis (R^T R = 1, det 1), '
+    'rot_axis_fixed, from_to_maps, constructor_frame_2d/_axis/_euler (vectors derived by transform_system, generic branch), '
+    'circular/curved detector alignment, det_point_decomp, src_det_consistent, normalised_unit, parallel_dir_const, '
+    'parallel_dir_orth_axes, det_axes_rotated, fan_radii/cone_radii (incl. helical offset), frommatrix_initial/_consistent, '
+    'getitem_angles_par2d/_par3d (full after the repairs), vectorised_shape_documented (= documented broadcast shape for all '
+    'inputs), factory_covers_volume_parallel; fan/cone factory coverage only partially, with the missing part proved to fail '
+    '(F19c, open: the repair contradicts the repo\'s own tests/doctests).')
+CHECKS['C15']['text'] = (
+    'Proved for all dimensions, node counts >= 2, strictly increasing (non-uniform) coordinates, all points and all real/complex '
+    'value arrays: nearest = closest node with right-ties and clamping; node exactness; barycentric weights; multilinear blend; '
+    'affine exactness inside the hull; coded zero-extension outside; per-axis nearest = nearest interpolator; calling-convention '
+    'invariance for every mesh/array/point input; input classification; every value dtype class accepted; sampling dispatch '
+    'paths agree (NumPy fitting abstract). The edge/weight programs, the nearest rule and the node-search constants are '
+    'EXTRACTED from the source each run and proved equal to the model (extracted_linear_edge, _nearest_edge, _nearest_rule, '
+    '_find_indices). Sampling values are checked only by an exact oracle on the real code.')
+CHECKS['C15']['note'] = (
+    'translator tools/extract/interp.py (tiny AST grammar; anything outside it is a broken obligation); exact differential '
+    'testing of nearest/linear/per_axis interpolators, Resampling and linear_deform in 1-3 d on uniform and non-uniform dyadic '
+    'grids; trusted: np.searchsorted(left) = count of nodes < p, NumPy fancy indexing/broadcasting, np.vectorize; n >= 2 per '
+    'axis; NaN/inf excluded; findings C15-F1..F5 fixed in /repo.')
+CHECKS['C18']['text'] = (
+    '33 theorems: reciprocal/real grid algebra for all n, parities, shifts (recip_grid_uniform, recip_halfcomplex_prefix, '
+    'recip_real_roundtrip, halfcomplex_shape_roundtrip, interp_freqs_match_grid; recip_table_matches_source / '
+    'freq_table_matches_source against the tables EXTRACTED from the source); over any field with a primitive n-th root of '
+    'unity: dft_inverse, dft_backends_agree, dft_hermitian, halfcomplex_roundtrip, dft_range_matches_output, '
+    'pyfftw_planning_preserves_data; phase_factorisation, ft_forward_is_fourier_sum (the forward transform is the discretised '
+    'Fourier integral), ft_inverse (inverse o forward = id for arbitrary phase and kernel factors); wavelets: ravel_unravel_id, '
+    'crop_rule, pad_table_sound/documented, wavelet_adjoint_scale (given an isometric W). One defect class (F18e, open) is '
+    'excluded and reproduced on every run. Not proved: Gaussian convergence (measured), PyWavelets PR/orthogonality (assumed, '
+    'measured), n-d composition (fibre-wise, tested).')
+CHECKS['C18']['note'] = (
+    'translators tools/extract/waveletpad.py and tools/extract/recipgrid.py (AST of reciprocal_grid and dft_postprocess_data); '
+    'numpy.fft/pyFFTW as naive root-of-unity sums with documented plan normalisation and PyWavelets as parameters (compared on '
+    'every case); exact for axis lengths 1/2/4 with integer data, tolerance 1e-9*scale (float64) / 2e-4 (float32) elsewhere.')
+CHECKS['C02']['text'] = (
+    'Proved for all spaces (tensor, discretized, product spaces nested to any depth), all lengths and elements, over R/C with '
+    'positive real weights: conjugate symmetry, additivity and homogeneity in the first argument, positivity, definiteness and '
+    'weighted Cauchy-Schwarz; the documented weighted-sum formulas for inner products and for all norm branches '
+    '(norm_eq_weighted_pnorm); ||x||^2 = re<x,x> for exponent 2; norm_nonneg; absolute homogeneity; the triangle inequality for '
+    'p in {1,2,inf} and every generic p >= 1 (Mathlib Minkowski); dist = norm(x-y) and its symmetry; ||1||^2 = domain volume '
+    'for every uniform_discr with any per-axis-side nodes_on_bdry. No partial theorems remain. Custom inner/norm/dist callables: '
+    'delegation is tested only.')
+CHECKS['C02']['note'] += ' Findings C02-F1..F4 fixed in /repo (6f82d20, fc49971, f3b810b, 983d10f).'
+CHECKS['C06']['text'] = (
+    '(a) executable model of `derivative` for all expression classes, Broadcast/Reduction/Diagonal/ProductSpaceOperator, '
+    'polynomial leaves incl. ComplexModulusSquared/RealPart/ImagPart/ComplexEmbedding (C=R^2): deriv_sound_poly (dual-number '
+    'soundness: pins every inner point, scalar and block slice), deriv_is_linear, deriv_linear, deriv_affine, '
+    'central_diff_poly_partial (O(h^2) cancellation) for all trees/depths/dimensions/rings; (b) analytic: deriv_sound (leaf '
+    'HasFDerivAt => tree HasFDerivAt for the coded rules over opaque leaves on a commutative normed R-algebra), '
+    'central_diff_tendsto; (c) ufunc_table_sound: the EXTRACTED ufunc (f,f\') table proved against Mathlib, ufunc_leaves_ok and '
+    'deriv_sound_ufunc discharge it as leaves of (b). The leaf contract for Norm/Dist/ComplexModulus/PointwiseNorm/finite '
+    'differences/functionals is established by the sampled central-difference oracle only.')
+
 NOT_YET = {}
 
 
